@@ -8,6 +8,8 @@ s=$1
 d=/verif/seeded/$s
 p=$(python3 -c "import json;print(json.load(open('$d/meta.json'))['property'])")
 w=/tmp/seed-$p
+# newer seeds have a location-independent run.sh: give each its own scratch path
+grep -q "/tmp/seed-" "$d/run.sh" 2>/dev/null || w=/tmp/cf-$s
 if [ -e "$w" ]; then echo "$w exists, refusing"; exit 3; fi
 /verif/tools/mkworktree.sh "$w" >/dev/null || exit 3
 trap 'git -C /repo worktree remove --force "$w" >/dev/null 2>&1; rm -rf "$w"' EXIT
